@@ -121,9 +121,24 @@ pub fn check_cli(h: &CHistory) -> CheckResult {
     ok(h.ops.len() >= 2, format!("cli/{}ops", h.ops.len()))
 }
 
+/// Record i of a long stream (one-byte chunks through the hook) opens under nonce i and, for i >= 256 / 65536, NOT under
+/// the nonce a counter that lost its high bytes would have produced.
+#[derive(Clone, Debug, Serialize, Deserialize)]
+pub struct LongNonce { pub n: usize }
+pub fn check_long_nonce(c: &LongNonce) -> CheckResult {
+    let key = gen::key32(c.n as u64, "c07-long"); let p = gen::bytes_from(c.n as u64, c.n);
+    let (res, sh) = kx::enc_chunks(&p, &RSched::full(), &WSched::all(), None, &key, &[], 1); ensure!(res.is_ok(), "encrypt_chunks failed");
+    let f = sh.sink.take(); ensure!(f.len() == c.n * 33, "unexpected stream size");
+    for i in 0..c.n { let rec = &f[i * 33..(i + 1) * 33]; let mut aad = rec[8..16].to_vec(); aad.truncate(8);
+        ensure!(kc::verif_chapoly_decrypt_noise(&key, i as u64, &aad, &rec[16..]).is_ok(), "record {} of a {}-record stream was not sealed under nonce {}", i, c.n, i);
+        for wrap in [256u64, 65536] { if i as u64 >= wrap { ensure!(kc::verif_chapoly_decrypt_noise(&key, i as u64 % wrap, &aad, &rec[16..]).is_err(), "record {} also opens under nonce {}: the nonce repeats after {} chunks", i, i as u64 % wrap, wrap); } } }
+    ok(c.n > 256, format!("long-nonce/{}", if c.n > 65536 { ">65536" } else { "<=65536" }))
+}
+
 pub fn run(ctx: &Ctx) {
     set_rule("C07", "histories of 2..200 library operations over 3 fixed inputs - key_encrypt with ephemeral and/or payload key supplied or left to the implementation, PrivateKey::generate - with a high probability of repeating an earlier operation with identical inputs; shorter CLI histories of identical `encrypt`, `password encrypt`, `key generate`, `key change-pass` runs. Invariant over the history: the values the implementation drew itself (ephemeral public keys, payload keys and file keys recovered with the implementation's own noise_decrypt + hkdf_sha256, generated private keys recovered with its unlock, salts) are pairwise distinct, not all-zero, and equal to no supplied value; if only one of ephemeral/payload key is supplied the other is still fresh; within each file record i opens under nonce i and under no other nonce j < n; a pooled monobit count over all drawn values lies within 6 sigma of 1/2. Non-trivial = history with >= 2 operations with identical inputs; distinct by hash of the history");
     ctx.assume("testing shows absence of repetition and of gross bias, not unpredictability of the operating system's generator");
+    ctx.sse_vec("nonce_per_record_long_streams", "streams of 300 and 66000 one-byte chunks: record i under nonce i only", vec![LongNonce { n: 300 }, LongNonce { n: 66_000 }], check_long_nonce);
     ctx.pbt("library_histories", ctx.n(2_000, 60_000), || (proptest::collection::vec(prop_oneof![6 => (0u8..3, proptest::option::of(0u8..3), proptest::option::of(0u8..3)).prop_map(|(input, e, p)| LOp::Enc { input, e, p }), 1 => Just(LOp::Generate), 1 => (0u8..3, any::<bool>(), any::<u8>()).prop_map(|(input, side_flush, k)| LOp::EncInterrupted { input, side_flush, k })], 2..200), any::<u64>()).prop_map(|(ops, seed)| LHistory { ops, seed }), check_lib);
     ctx.shrink_iters.store(20, std::sync::atomic::Ordering::Relaxed);
     ctx.pbt("cli_histories", ctx.n(32, 600), || proptest::collection::vec(prop_oneof![3 => Just(COp::Enc), 2 => Just(COp::PassEnc), 2 => Just(COp::KeyGen), 2 => Just(COp::ChangePass), 1 => Just(COp::ChangePassSame), 2 => Just(COp::KeyGenAppend)], 2..9).prop_map(|ops| CHistory { ops }), check_cli);
